@@ -150,6 +150,34 @@ def harmless(src):
         shutil.rmtree(vc, ignore_errors=True)
 
 
+def harmless_all(mid):
+    """every check against one recorded harmless rewrite (cross-property brittleness): harmless/<mid>/meta.json gets `all_checks`"""
+    dst = os.path.join(HARMLESS, mid)
+    meta = json.load(open(os.path.join(dst, "meta.json")))
+    vc = tempfile.mkdtemp(prefix="vcopy-", dir="/tmp")
+    out_all = {}
+    try:
+        sh(["rsync", "-a", "--exclude", ".git", ROOT + "/", vc + "/"])
+        with Worktree() as wt:
+            rc_a, _ = sh(["git", "-C", wt, "apply", os.path.join(dst, "patch.diff")])
+            if rc_a != 0:
+                return mid, None, "patch does not apply"
+            env = dict(os.environ, VERIF_REPO=wt)
+            for prop in open(os.path.join(ROOT, "theorems", "CLAIMED")).read().split():
+                try:
+                    rc, out = sh(["./check", prop, "quick"], cwd=vc, env=env, timeout=3600)
+                except subprocess.TimeoutExpired:
+                    rc, out = 124, "timeout"
+                if rc != 0:
+                    out_all[prop] = {"exit": rc, "broken": [b[:240] for b in re.findall(r"broken [TPC]: (.*)", out)[:3]],
+                                     "first": (re.search(r"first failing input: (.*)", out) or [None, None])[1]}
+        meta["all_checks"] = {"quiet": not out_all, "alarms": out_all}
+        json.dump(meta, open(os.path.join(dst, "meta.json"), "w"), indent=1)
+        return mid, not out_all, " ".join(f"{k}:exit{v['exit']}" for k, v in out_all.items())
+    finally:
+        shutil.rmtree(vc, ignore_errors=True)
+
+
 def main(argv):
     global TAG
     if "--tag" in argv:
@@ -167,6 +195,10 @@ def main(argv):
                 p = os.path.join(d, sub)
                 if os.path.isdir(p) and os.path.exists(os.path.join(p, "patch.diff")):
                     print("harmless", *harmless(p), flush=True)
+    elif argv[0] == "harmless-all":
+        for mid in argv[1:] or sorted(os.listdir(HARMLESS)):
+            if os.path.exists(os.path.join(HARMLESS, mid, "meta.json")):
+                print("harmless-all", *harmless_all(mid), flush=True)
     elif argv[0] == "detect":
         tier = "quick"
         ids = [a for a in argv[1:] if not a.startswith("--")]
